@@ -11,6 +11,7 @@ mod api;
 mod compile;
 mod enc;
 mod exec;
+mod helpers;
 mod record;
 mod text;
 mod util;
@@ -42,6 +43,7 @@ fn main() {
         "texts" => cmd_texts(&args[2..]),
         "fuzz-asm" => cmd_fuzz_asm(&args[2..]),
         "encs" => cmd_encs(&args[2..]),
+        "helpers" => cmd_helpers(&args[2..]),
         other => {
             eprintln!("unknown command {other}");
             2
@@ -595,5 +597,57 @@ fn cmd_encs(args: &[String]) -> i32 {
     let report = json!({"records": recs.len(), "pass": pass, "fail": nfail, "failures": fails, "samples": samples});
     std::fs::write(report_path, serde_json::to_string(&report).unwrap()).unwrap();
     println!("encs: {} records, {} pass, {} fail", recs.len(), pass, nfail);
+    0
+}
+
+/// rv helpers --cases F --report R   |   rv helpers --observe --seed S --n N --out F
+fn cmd_helpers(args: &[String]) -> i32 {
+    if args.iter().any(|a| a == "--observe") {
+        let seed: u64 = arg(args, "--seed").map(|s| s.parse().unwrap()).unwrap_or(1);
+        let n: usize = arg(args, "--n").map(|s| s.parse().unwrap()).unwrap_or(200);
+        let out = arg(args, "--out").expect("--out");
+        let ev = helpers::observe(seed, n);
+        use std::io::Write;
+        let mut f = std::fs::File::create(out).unwrap();
+        for e in &ev {
+            writeln!(f, "{}", serde_json::to_string(e).unwrap()).unwrap();
+        }
+        println!("helpers --observe: {} events", ev.len());
+        return 0;
+    }
+    let report_path = arg(args, "--report").expect("--report");
+    let recs = read_ndjson(arg(args, "--cases").expect("--cases"));
+    let batches: Vec<Value> = recs.chunks(200).map(|c| Value::Array(c.to_vec())).collect();
+    let results = run_isolated(&batches, 60000, |b| Value::Array(arr(b).iter().map(helpers::run_helper).collect()));
+    let mut pass = 0u64;
+    let mut nfail = 0u64;
+    let mut fails = Vec::new();
+    let mut samples = Vec::new();
+    for (b, r) in batches.iter().zip(results.iter()) {
+        let rs = arr(b);
+        match r {
+            ChildResult::Done(v) => {
+                for (rec, o) in rs.iter().zip(arr(v).iter()) {
+                    let bad = arr(&o["bad"]);
+                    if bad.is_empty() {
+                        pass += 1;
+                        if samples.len() < 3 { samples.push(rec.clone()); }
+                    } else {
+                        nfail += 1;
+                        if fails.len() < 300 {
+                            fails.push(json!({"record": rec, "reason": bad.iter().map(|x| x.as_str().unwrap_or("").to_string()).collect::<Vec<_>>().join(" | ")}));
+                        }
+                    }
+                }
+            }
+            _ => {
+                nfail += rs.len() as u64;
+                fails.push(json!({"record": rs[0], "reason": "a helper call in this batch crashed the process"}));
+            }
+        }
+    }
+    let report = json!({"records": recs.len(), "pass": pass, "fail": nfail, "failures": fails, "samples": samples});
+    std::fs::write(report_path, serde_json::to_string(&report).unwrap()).unwrap();
+    println!("helpers: {} records, {} pass, {} fail", recs.len(), pass, nfail);
     0
 }
